@@ -601,7 +601,11 @@ class ArgCase(object):
     def run(self, monitor):
         op, args, kw, exp, label = self.row
         pre = STATES20[self.sname]
-        post = POST20 if op != "connect" else [("connack", 0, 0, False), ("pub", 0, 1), ("adv", 12), ("lose", 0, "done"), ("adv", 1)]
+        post = POST20
+        if op == "connect":
+            post = ([("connack", 0, 0, False)] if exp != "reject" else
+                    [("connect", 0, False, 0, 3), ("connack", 0, 0, False)]) + [("pub", 0, 1), ("adv", 12), ("lose", 0, "done"), ("build", 0),
+                                                                               ("connect", 0, False, 0, 3), ("connack", 0, 0, True), ("adv", 1)]
         w = World(self.cfg)
         for s in pre:
             w.step(s)
